@@ -381,11 +381,20 @@ func TestVerifReplay(t *testing.T) {
 	ov, _ := json.Marshal(map[string]interface{}{"Replace": overlay})
 	ovf := filepath.Join(tmp, "overlay.json")
 	os.WriteFile(ovf, ov, 0o644)
-	cmd := exec.Command("timeout", "300", "go", "test", "-vet=off", "-count=1", "-run", "^TestVerifReplay$", "-overlay", ovf, ".")
+	args := []string{"300", "go", "test", "-vet=off", "-count=1", "-run", "^TestVerifReplay$", "-overlay", ovf}
+	race := strings.Contains(rf.Label, "package-level state")
+	if race {
+		args = append(args, "-race")
+	}
+	args = append(args, ".")
+	cmd := exec.Command("timeout", args...)
 	cmd.Dir = repo
 	cmd.Env = append(os.Environ(), "GOFLAGS=-mod=mod", "GOPROXY=off", "GOSUMDB=off", "GOTOOLCHAIN=local")
 	out, _ := cmd.CombinedOutput()
 	s := string(out)
+	if race {
+		return strings.Contains(s, "DATA RACE") || strings.Contains(s, "concurrent map"), s
+	}
 	return strings.Contains(s, "VERIF-REPRODUCED"), s
 }
 
